@@ -141,14 +141,34 @@ def scaled(x, f):
 SCALES = (2.0 ** -14, 2.0 ** -20, 2.0 ** -30, 2.0 ** 12)
 
 
-def build(kind, els):
+def build(kind, els, dtype='float64'):
     import numpy as np
     C = cls_of(kind)
     if kind == 'point':
-        return C([None if e is None else np.asarray(e, dtype='float64') for e in els] if els else [], dtype='float64')
-    if all(e is None for e in els) or not els:
-        return C(els, dtype='float64')
-    return C(els, dtype='float64')
+        return C([None if e is None else np.asarray(e, dtype=dtype) for e in els] if els else [], dtype=dtype)
+    return C(els, dtype=dtype)
+
+
+def _coords(x):
+    if x is None:
+        return []
+    if isinstance(x, list):
+        return [c for v in x for c in _coords(v)]
+    return [x]
+
+
+def pick_dtype(rng, els):
+    """a coordinate subtype in which every coordinate of `els` is exactly representable"""
+    import math
+    import numpy as np
+    cs = _coords(els)
+    if rng.random() < 0.5:
+        return 'float64'
+    if all(math.isfinite(c) and float(c).is_integer() and abs(c) < 2 ** 14 for c in cs):
+        return rng.choice(['float32', 'int64', 'int32', 'int16', 'float64'])
+    if all((not math.isfinite(c)) or float(np.float32(c)) == float(c) for c in cs):
+        return rng.choice(['float32', 'float64'])
+    return 'float64'
 
 
 def apply_steps(arr, view, steps):
@@ -234,17 +254,18 @@ def random_steps(rng, n):
 
 
 class Case:
-    def __init__(self, kind, els, steps):
+    def __init__(self, kind, els, steps, dtype='float64'):
         self.kind = kind
-        self.recipe = {'kind': kind, 'elements': els, 'steps': steps}
-        base = build(kind, els)
+        self.dtype = dtype
+        self.recipe = {'kind': kind, 'elements': els, 'steps': steps, 'dtype': dtype}
+        base = build(kind, els, dtype)
         self.arr, self.view = apply_steps(base, list(els), steps)
         from .registry import note_input
         note_input(self.recipe, nontrivial=any(e is not None for e in self.view))
 
     @staticmethod
     def from_recipe(r):
-        return Case(r['kind'], r['elements'], r['steps'])
+        return Case(r['kind'], r['elements'], r['steps'], r.get('dtype', 'float64'))
 
 
 def case(kind, rng, derive=True, **kw):
@@ -252,7 +273,7 @@ def case(kind, rng, derive=True, **kw):
         kw = dict(kw, n=rng.choice([9, 12, 17, 20, 24]))     # long enough for slices starting at array offset 8, 16
     els = elements(kind, rng, **kw)
     steps = random_steps(rng, len(els)) if derive else []
-    return Case(kind, els, steps)
+    return Case(kind, els, steps, pick_dtype(rng, els))
 
 
 def box(rng, positive=True):
